@@ -4,13 +4,18 @@ package main
 
 // C06 (d): the real Balancer.Run against a stub API server and stub keepstores (one RoundTripper, no
 // sockets).  For every configuration: one run without failure (which also tells how many requests a
-// sweep makes and what it plans), then one run per request index k with that request failing
-// (HTTP 500, or - for index requests - a response cut short).  Observed: the PUT /trash and PUT /pull
+// sweep makes and what it plans), then for every request index k runs with that request failing: HTTP 500,
+// one more failure kind drawn per request (transport error, 404, 503 with a non-JSON body, 200 with a body
+// that is not the expected JSON) and - for index requests - a response cut short.  The stub cluster has
+// read-only mounts that are NOT shadowed by a writable mount of the same device (their index counts),
+// read-only views that are shadowed, read-only services, blank device ids, Replication 0-2 and storage
+// classes, so that a failure is tried on every kind of mount and service.  Observed: the PUT /trash and PUT /pull
 // requests the keepstores received (number of entries in the body) and whether Run returned nil.
 // One Gallina `CSweep` case per run (model: coq/model/C06_model.v sweep).
 
 import (
 	"encoding/json"
+	"errors"
 	"fmt"
 	"io/ioutil"
 	"net/http"
@@ -27,10 +32,13 @@ import (
 )
 
 type c06Mount struct {
-	uuid  string
-	dev   string
-	index string // well-formed index text
-	num   int
+	uuid    string
+	dev     string
+	index   string // well-formed index text
+	num     int
+	ro      bool
+	repl    int
+	classes map[string]bool
 }
 
 type c06Put struct {
@@ -48,6 +56,8 @@ type c06SweepRT struct {
 	coll      *c06Sim
 	failAt    int // global request number to fail (-1 none)
 	cutIndex  bool
+	failMode  int    // 0: 500; 2: transport error; 3: 404; 4: 503 with a non-JSON body; 5: 200 with an unexpected body
+	srvRO     []bool // per service: read_only in the keep_services list
 	nreq      int
 	seenDD    bool
 	ncoll     int
@@ -56,7 +66,10 @@ type c06SweepRT struct {
 	reqLog    []string
 }
 
-func (rt *c06SweepRT) canon(dev string) int {
+func (rt *c06SweepRT) canon(dev string, self int) int {
+	if dev == "" { // a blank device id is a device of its own
+		return self
+	}
 	best := 0
 	for _, ms := range rt.mounts {
 		for _, m := range ms {
@@ -121,7 +134,7 @@ func (rt *c06SweepRT) RoundTrip(req *http.Request) (*http.Response, error) {
 			if m.uuid == u {
 				// a device mounted on several services is indexed through whichever mount the balancer
 				// happens to pick (map order): name the request by the device's first mount
-				id = fmt.Sprintf("QIndex %d", rt.canon(m.dev))
+				id = fmt.Sprintf("QIndex %d", rt.canon(m.dev, m.num))
 			}
 		}
 	case srv >= 0 && req.Method == "PUT" && (path == "/trash" || path == "/pull"):
@@ -155,13 +168,25 @@ func (rt *c06SweepRT) RoundTrip(req *http.Request) (*http.Response, error) {
 			}
 			return mk(200, full[:len(full)-1])
 		}
+		switch rt.failMode {
+		case 2:
+			return nil, errors.New("injected transport error")
+		case 3:
+			return mk(404, `{"errors":["not found"]}`)
+		case 4:
+			return mk(503, `service unavailable`)
+		case 5:
+			if req.Method == "GET" {
+				return mk(200, `<html>this is not the expected document</html>`)
+			}
+		}
 		return mk(500, `{"errors":["injected"]}`)
 	}
 	switch {
 	case path == "/arvados/v1/keep_services":
 		var items []arvados.KeepService
 		for i := 0; i < rt.nsrv; i++ {
-			items = append(items, arvados.KeepService{UUID: c05SrvUUID(i), ServiceHost: fmt.Sprintf("keep%d.example", i), ServicePort: 25107, ServiceType: "disk"})
+			items = append(items, arvados.KeepService{UUID: c05SrvUUID(i), ServiceHost: fmt.Sprintf("keep%d.example", i), ServicePort: 25107, ServiceType: "disk", ReadOnly: rt.srvRO[i]})
 		}
 		// a proxy is listed too and must be ignored
 		items = append(items, arvados.KeepService{UUID: "zzzzz-bi6l4-proxyproxyproxy", ServiceHost: "proxy.example", ServicePort: 443, ServiceSSLFlag: true, ServiceType: "proxy"})
@@ -179,7 +204,7 @@ func (rt *c06SweepRT) RoundTrip(req *http.Request) (*http.Response, error) {
 	case path == "/mounts":
 		var ms []arvados.KeepMount
 		for _, m := range rt.mounts[srv] {
-			ms = append(ms, arvados.KeepMount{UUID: m.uuid, DeviceID: m.dev, Replication: 1})
+			ms = append(ms, arvados.KeepMount{UUID: m.uuid, DeviceID: m.dev, Replication: m.repl, ReadOnly: m.ro, StorageClasses: m.classes})
 		}
 		b, _ := json.Marshal(ms)
 		return mk(200, string(b))
@@ -234,16 +259,48 @@ func TestVerifC06Sweep(t *testing.T) {
 			rr := vCaseRand(seed, conf) // same layout for every run of this configuration
 			rr.Intn(4)
 			rr.Intn(2)
-			rt := &c06SweepRT{t: t, nsrv: nsrv, ksPages: ksPages, failAt: -1}
+			rt := &c06SweepRT{t: t, nsrv: nsrv, ksPages: ksPages, failAt: -1, srvRO: make([]bool, nsrv)}
 			num := 0
+			// the service whose only mount is read-only and holds replicas (configurations 0, 3, 6, ...: always)
+			roSrv := -1
+			if conf%3 == 0 || rr.Chance(1, 3) {
+				roSrv = 1 + rr.Intn(nsrv-1)
+			}
 			for i := 0; i < nsrv; i++ {
 				nm := 1 + rr.Intn(2)
+				if i == roSrv {
+					nm = 1
+				}
+				rt.srvRO[i] = i != 0 && i != roSrv && rr.Chance(1, 8)
 				var ms []c06Mount
 				for j := 0; j < nm; j++ {
 					num++
 					dev := fmt.Sprintf("dev-%d-%d", i, j)
 					if j == 1 && i <= 1 {
 						dev = "dev-shared" // one (empty) device mounted on services 0 and 1: indexed once
+					}
+					m := c06Mount{uuid: fmt.Sprintf("zzzzz-nyw5e-%015d", num), dev: dev, num: num, repl: 1}
+					switch {
+					case i == roSrv:
+						m.ro = true // not shadowed: its index counts
+					case j == 1 && i == 1:
+						m.ro = rr.Chance(1, 2) // read-only view of dev-shared, shadowed when service 0 mounts it read-write
+					case i > 0 && j == 0 && rr.Chance(1, 6):
+						m.ro = true
+					case j == 0 && i > 1 && rr.Chance(1, 6):
+						m.dev = "" // blank device id
+					}
+					switch rr.Intn(6) {
+					case 0:
+						m.repl = 0 // read as 1
+					case 1:
+						m.repl = 2
+					}
+					switch rr.Intn(5) {
+					case 0:
+						m.classes = map[string]bool{"default": true}
+					case 1:
+						m.classes = map[string]bool{"archive": true}
 					}
 					text := ""
 					if j == 0 { // foo everywhere (over-replicated -> trash), bar on the first service only (-> pull)
@@ -252,7 +309,8 @@ func TestVerifC06Sweep(t *testing.T) {
 							text += fmt.Sprintf("%s %d\n", bar, old)
 						}
 					}
-					ms = append(ms, c06Mount{uuid: fmt.Sprintf("zzzzz-nyw5e-%015d", num), dev: dev, index: text + "\n", num: num})
+					m.index = text + "\n"
+					ms = append(ms, m)
 				}
 				rt.mounts = append(rt.mounts, ms)
 			}
@@ -265,9 +323,9 @@ func TestVerifC06Sweep(t *testing.T) {
 			rt.coll = sim
 			return rt
 		}
-		run := func(failAt int, cut bool) (*c06SweepRT, error) {
+		run := func(failAt int, cut bool, mode int) (*c06SweepRT, error) {
 			rt := build()
-			rt.failAt, rt.cutIndex = failAt, cut
+			rt.failAt, rt.cutIndex, rt.failMode = failAt, cut, mode
 			client := &arvados.Client{Client: &http.Client{Transport: rt}, Scheme: "http", APIHost: "api.example", AuthToken: "tok"}
 			cluster := &arvados.Cluster{}
 			cluster.Collections.BalanceTimeout = arvados.Duration(time.Minute)
@@ -281,7 +339,7 @@ func TestVerifC06Sweep(t *testing.T) {
 			_, err := bal.Run(client, cluster, RunOptions{CommitPulls: commitPulls, CommitTrash: commitTrash, Logger: c05Logger})
 			return rt, err
 		}
-		base, err := run(-1, false)
+		base, err := run(-1, false, 0)
 		if err != nil {
 			t.Fatalf("baseline sweep failed: %v", err)
 		}
@@ -315,6 +373,12 @@ func TestVerifC06Sweep(t *testing.T) {
 		}
 		cfg := fmt.Sprintf("{| s_services := %s; s_ks_pages := %d; s_indexed := %s; s_coll_reqs := %d; s_clear := %v; s_commit_pulls := %v; s_commit_trash := %v; s_sane := true; s_plan := %s |}",
 			gList(svcs), ksPages, gList(indexed), ncollReq, commitTrash, commitPulls, commitTrash, gList(planT))
+		hasRO := false
+		for _, ms := range base.mounts {
+			for _, m := range ms {
+				hasRO = hasRO || m.ro
+			}
+		}
 		emit := func(rt *c06SweepRT, err error, failAt int, cut bool) {
 			sort.Slice(rt.puts, func(i, j int) bool {
 				a, b := rt.puts[i], rt.puts[j]
@@ -344,8 +408,31 @@ func TestVerifC06Sweep(t *testing.T) {
 			}
 			term := fmt.Sprintf("CSweep %s %s %s %v", cfg, failed, gList(puts), err == nil)
 			desc := map[string]interface{}{"index": idx, "configuration": conf, "services": nsrv, "commit_pulls": commitPulls, "commit_trash": commitTrash,
-				"fail_request_number": failAt, "failed_request": rt.failedReq, "index_cut_short": cut, "requests": rt.nreq, "puts": fmt.Sprint(rt.puts), "run_returned_nil": err == nil}
+				"fail_request_number": failAt, "failed_request": rt.failedReq, "index_cut_short": cut, "failure_mode": rt.failMode, "requests": rt.nreq, "puts": fmt.Sprint(rt.puts), "run_returned_nil": err == nil}
+			var md []string
+			for i, ms := range rt.mounts {
+				for _, m := range ms {
+					md = append(md, fmt.Sprintf("mount %d on service %d: dev=%q ro=%v repl=%d classes=%v entries=%d", m.num, i, m.dev, m.ro, m.repl, m.classes, strings.Count(m.index, "\n")-1))
+				}
+			}
+			desc["mounts"] = md
+			desc["read_only_services"] = fmt.Sprint(rt.srvRO)
 			tags := []string{fmt.Sprintf("commit=%v/%v", commitPulls, commitTrash)}
+			if hasRO {
+				tags = append(tags, "has-read-only-mount")
+			}
+			if rt.failedReq != "" && strings.HasPrefix(rt.failedReq, "QIndex ") {
+				for _, ms := range rt.mounts {
+					for _, m := range ms {
+						if fmt.Sprintf("QIndex %d", m.num) == rt.failedReq && m.ro {
+							tags = append(tags, "failed-index-of-read-only-mount")
+						}
+					}
+				}
+			}
+			if rt.failedReq != "" {
+				tags = append(tags, fmt.Sprintf("failure-mode=%d", rt.failMode))
+			}
 			if rt.failedReq != "" {
 				tags = append(tags, "failed:"+strings.Fields(rt.failedReq)[0])
 			} else {
@@ -361,10 +448,13 @@ func TestVerifC06Sweep(t *testing.T) {
 		}
 		emit(base, nil, -1, false)
 		for k := 0; k < base.nreq; k++ {
-			rt, err := run(k, false)
+			rt, err := run(k, false, 0)
 			emit(rt, err, k, false)
+			rm := vCaseRand(seed, conf*1000+k+500)
+			rt1, err1 := run(k, false, 2+rm.Intn(4))
+			emit(rt1, err1, k, false)
 			if rt.failedReq != "" && strings.HasPrefix(rt.failedReq, "QIndex") {
-				rt2, err2 := run(k, true)
+				rt2, err2 := run(k, true, 0)
 				emit(rt2, err2, k, true)
 			}
 		}
